@@ -2,7 +2,7 @@
 # Runs every planned mutant (mutants/*.diff) and every seeded change
 # (seeded/*/patch.diff) through its property's quick check in scratch worktrees
 # and writes mutants/RESULTS.md and seeded/RESULTS.md.
-cd /verif
+cd "$(dirname "$0")/.."
 {
 echo "# Planned mutants through the quick tier (tools/run_all_sensitivity.sh, $(date -u +%F))"
 echo
@@ -22,7 +22,7 @@ echo
 echo "| id | property | exit | violation keys (first three) |"
 echo "|---|---|---|---|"
 for d in seeded/*/; do
-  id=$(basename $d); prop=$(python3 -c "import json;print(json.load(open('$d/meta.json'))['breaks_property'])")
+  id=$(basename $d); prop=$(python3 -c "import json;print(json.load(open('${d}meta.json'))['breaks_property'])")
   line=$(tools/mutate_wt.sh $d/patch.diff $prop 2>&1 | tail -1)
   rc=$(echo "$line" | sed -n 's/.* rc=\([0-9]*\).*/\1/p')
   keys=$(echo "$line" | grep -o 'key=[^ ]*' | head -3 | sed 's/key=//' | tr '\n' ' ')
